@@ -74,14 +74,14 @@ first-order explicitly, under syntactic conditions checked here (anything else i
   * the constructor calls `HTMLDependency(k=v, …)` and `Tag(a, …, *b)` with the classes imported from `._core`: the translated
     `HTMLDependency.__init__` (pytr_c10b.py) / `Tag.__init__` (pytr_c15b.py, star binding `_call_star`) on a new, empty
     instance, under the conditions on the class that those plug-ins check in `_core.py` itself (`_core_plain_class`);
-  * `HTML(e)`: `mkHTMLC20b` (`mkHTML`, `unsupported` for a `jsx` string: `UserString` keeps a `str` subclass instance as it is).
+  * `HTML(e)`: `mkHTMLC20b` (`mkHTML`; `str()` of a `jsx` string is the plain `str` with its text).
 
 `jsx.__new__`, `jsx.__add__`, `jsx_tag_create`:
 
   * `jsx.__new__(cls, *args)` is translated for `cls = jsx` (the parameter is dropped): `super().__new__(cls, e)` in a class whose
     only base is `str` is `str.__new__(jsx, e)`: `pyJsxNewC20b e` (a new `jsx` string with the text of the `str` `e`);
   * `str.__add__(a, b)`: `pyStrAddC20b` (the plain-`str` concatenation of the texts when `b` is a `str`, also of a subclass;
-    otherwise `str.__add__` *returns* `NotImplemented`, a value the universe does not have: `unsupported`);
+    TypeError otherwise — the slot wrapper raises it itself);
   * `jsx(e)`: the translated `jsx.__new__` on the one positional argument, for the class `jsx` of this module (it defines
     `__new__` and no `__init__`, so the call is `jsx.__new__(jsx, e)` followed by `str.__init__`, which does nothing);
   * `jsx_tag_create`: the `def` of the function it returns binds a first-order closure value (`mkClosureC17`, the convention of
